@@ -10,7 +10,7 @@ ben_tab = subprocess.run(["python3", os.path.join(V, "tools", "benign_table.py")
 
 S9 = '''## 9. Independently seeded defects (which checks catch which changes)
 
-Method. For every property *fresh* sub-agents (four rounds; the later ones were told what the earlier ones had
+Method. For every property *fresh* sub-agents (five rounds; the later ones were told what the earlier ones had
 produced and asked for changes different in kind — round 3 explicitly for two cooperating sites, cached / memoised
 values that are not invalidated, histories of several operations, boundary values and narrow interleavings) were given
 only the property's text and their own scratch git worktree of `/repo` (nothing from `/verif`) and asked for up to
@@ -89,6 +89,32 @@ the hardest: of 57 confirmed changes about half were missed at first. What it le
   serializer keep their state's types), C20 (wire compression with incompressible payloads, iterator-valued members,
   same-named classes behind the gateway), C04, C05.
 
+Round 5 (after the deciding functions had been transcribed, §8; 20 properties, fresh agents told the summaries of all earlier
+changes and asked for a different site *and* a different mechanism). Missed or caught only as a broken tie at first, and what
+each led to (all re-run against the final checks, see the table):
+* C01: item streams consumed across a connection loss and re-attached within the linger time (an item replayed), messages
+  that carry annotations (the payload reaches the serializer as a `memoryview`: the same payload must decode alike as bytes,
+  bytearray and memoryview), values nested up to 180 containers deep around class-dict values.
+* C05: a witness client that is half way through an item stream while another connection ends (linger 0 and > 0, both
+  transports; `C05_stream_survives`), methods raising Pyro communication errors with the caller waiting (a complete request
+  from a peer that stays connected must be answered or the connection closed).
+* C06: chunk ids with bytes >= 0x80 (valid / invalid UTF-8, latin-1) and the oracle clause "whatever is accepted re-encodes
+  to exactly the consumed bytes"; sequences of messages back to back under fragmentation (`C06_roundtrip_sequence`).
+* C07: every wait on the real code has a watchdog (a reply that never comes is a failing input `no-reply:<class>`, not a
+  hanging check); builtin `ConnectionError` subclasses in the exception pool.
+* C08: CONNECT payloads of every shape (no `"handshake"` / `"object"` entry, foreign keys only, non-dict members) against
+  validators that refuse everybody; `denyConnection`; the whole of `_handshake` transcribed (`C08_hs_refusing_validator`).
+* C12: client side - replies that are rejected (wrong sequence number / serializer, stale reply after an interrupted wait)
+  must not leave their annotations in the client's context.
+* C13: multiplex histories delivered in poll rounds with several ready sockets (an ended connection that is not the last,
+  several ended together); `events()` transcribed (`C13_round_once`).
+* C17: sockets with timeout 0.0 (non-blocking) as a configuration of the scripted sockets.
+* C18: a job ending in a `BaseException` (the dying thread must not be handed the next connection), refused connections
+  with a silent peer under COMMTIMEOUT.
+* By their builders for the rest (C02 falsy registered objects and part-filled member caches, C03, C04, C09, C10, C11, C14,
+  C15 lock released on every path, C16, C19, C20).
+A check that did not come back on a seeded tree (C07, first trial) counts as missed; the runner's deadline is the last resort.
+
 ''' + seed_tab
 
 S10 = '''
@@ -98,7 +124,7 @@ S10 = '''
 ## 10. Harmless refactorings (alarms on code where the property holds)
 
 The other direction was measured the same way: fresh sub-agents, given only the property text and a scratch worktree,
-wrote behaviour-preserving refactorings of the code each property lives in (two rounds of three per property: renames,
+wrote behaviour-preserving refactorings of the code each property lives in (two rounds of three per property, and a third round of three for the ten properties whose deciding functions were transcribed in round 5, aimed at exactly those functions: renames,
 extracted / inlined helpers, early returns, hoisted constants, loop ↔ comprehension, merged conditions, split functions,
 docstrings and type hints; every one keeps the full suite green). `tools/try_benign.py` runs the property's own check
 (and the checks of neighbouring properties that read the same code) on each patched tree; the records are under
@@ -111,8 +137,12 @@ docstrings and type hints; every one keeps the full suite green). `tools/try_ben
   facts, C06's key-length fact), names and constants are resolved through the real module, helper methods are followed
   (C13, C05), equivalent control-flow forms are accepted (C08), lock discipline is checked on a skeleton with a soundness
   theorem (C15), locals and parameters are renamed canonically before a function is transcribed (py2ir). What remains
-  shape-dependent by nature are the proof scripts about transcribed functions (C17Ast / C06Ast / C13Ast break when the
-  AST's *structure* changes) and a few deliberately lexical facts named in the notes.
+  shape-dependent by nature are the proof scripts about functions transcribed through the deep embedding (C17Ast / C06Ast /
+  C06EncAst / C13Ast break when the AST's *structure* changes) and a few deliberately lexical facts named in the notes. The
+  per-property shallow translators of round 5 normalise control-flow forms, names, constants and helpers (§8); the third
+  round of refactorings measured them: most yield byte-identical Lean text, the forms that first broke a translator
+  (conditional expressions, named booleans, hoisted constants in new positions, a helper in condition position,
+  comprehension + assignment loop) were added as normal forms where that is sound and are refused otherwise.
 * a **false failing input** — the oracle blames a concrete input on a tree where the property holds. That would be a defect
   of the machinery. None occurred in any trial.
 Both rounds were re-run against the final checks (`tools/recheck_benign.py`); the table shows first → final.
